@@ -1,6 +1,7 @@
 mod a2lgen;
 mod c12;
 mod c13;
+mod c14;
 mod c17;
 mod common;
 
@@ -47,6 +48,8 @@ fn main() {
     let report = match prop.as_str() {
         "C12" => c12::run(&args),
         "C13" => c13::run(&args),
+        "C14" => c14::run_c14(&args),
+        "C15" => c14::run_c15(&args),
         "C17" => c17::run(&args),
         _ => {
             eprintln!("unknown property {prop}");
